@@ -89,6 +89,23 @@ def lm_write(l1: Dict[int, int], l2: Dict[int, int], k: int, v: int, k2: int) ->
     return (k2 in m) == (k2 == k or k2 in l1 or k2 in l2)
 
 
+def lm_write_len(l1: Dict[int, int], l2: Dict[int, int], k: int, v: int) -> bool:
+    """
+    pre: len(l1) <= 1 and len(l2) <= 2 and 0 <= k <= 2
+    post: _
+    """
+    m = LayeredMapping(l1, l2)
+    m[k] = v  # may shadow a key of a supplied layer
+    keys = list(m)
+    if len(m) != len(keys) or keys[0] != k:
+        return False
+    nkeys = 1 + sum(1 for key in l1 if key != k) + sum(1 for key in l2 if key != k and key not in l1)
+    if len(keys) != nkeys:
+        return False
+    m2 = m.with_layers({k: v + 1}, {7: 7})
+    return len(m2) == len(list(m2))
+
+
 def lm_delete(l1: Dict[int, int], l2: Dict[int, int], k: int, v: int, k2: int) -> bool:
     """
     pre: len(l1) <= 2 and len(l2) <= 2 and 0 <= k <= 3
@@ -104,6 +121,8 @@ def lm_delete(l1: Dict[int, int], l2: Dict[int, int], k: int, v: int, k2: int) -
     m[k] = v
     del m[k]
     if l1 != c1 or l2 != c2:
+        return False
+    if len(m) != len(list(m)):
         return False
     return m.get(k2, -7) == _top(k2, -7, l1, l2) and (k2 in m) == (k2 in l1 or k2 in l2)
 
